@@ -1,9 +1,180 @@
 import UvModel.DriverUtil
-/-! line-protocol driver modes for C08 (stub: no modes yet) -/
+import UvModel.Tpool
+import Std.Data.HashMap
+/-! line-protocol driver modes for C08 (thread pool); other side: harness/c08_sched.c
+
+`tpool`      lockstep: `cfg n L` then one action per line; prints events, lock trace and the
+             abstract state after every action (`skip` when the action is not enabled)
+`tpoolgen`   schedule generator: `cfg n L maxItems` then `r <cat> <num> <c>` lines; picks the
+             (num mod k)-th enabled action of the category and prints it as a schedule line
+`tpoolgraph` `cfg n L maxItems maxCancels kinds spur`: prints every transition of the reachable
+             state graph (`e src dst action`), for exhaustive small-scope schedules -/
 namespace Drivers.C08
-open UvModel.DriverUtil
+open UvModel.DriverUtil UvModel.Tpool
+
+def lst (xs : List String) : String := if xs.isEmpty then "-" else ",".intercalate xs
+
+def entS : Ent → String
+  | .item i => toString i
+  | .marker => "M"
+
+def wphS : WPhase → String
+  | .start => "start" | .waiting => "wait" | .woken => "woken"
+  | .got _ _ => "got" | .inwork i _ => s!"inwork:{i}" | .posted _ => "posted"
+
+def kindS : Kind → String | .cpu => "c" | .fast => "f" | .slow => "s"
+def workS : Work → String | .fn => "f" | .null => "n" | .cancelled => "c"
+def b01 (b : Bool) : String := if b then "1" else "0"
+
+def loopS (l : Nat) (ls : LoopSt) : String :=
+  let ph := match ls.cmid with
+    | some _ => "cmid"
+    | none => match ls.phase with | .top => "top" | .drained => "drained" | .incb => "incb"
+  s!"L{l}={ph}:q={lst (ls.q.map toString)}:a{b01 ls.async}:r{ls.reqs}"
+
+def itemS (i : Nat) (it : Item) : String :=
+  s!"{i}/L{it.loop}/{kindS it.kind}/{b01 it.linked}/{workS it.work}/{it.starts}/{b01 it.returned}/{it.dones}/{it.status}"
+
+def dump (s : State) : String :=
+  s!"wq={lst (s.wq.map entS)} sq={lst (s.sq.map toString)} sr={s.slowRun} idle={s.idle} " ++
+  s!"W={lst ((List.range s.n).map fun t => wphS (s.workers t))} " ++
+  " ".intercalate ((List.range s.nLoops).map fun l => loopS l (s.loops l)) ++
+  s!" I={lst ((List.range s.nItems).map fun i => itemS i (s.items i))}"
+
+def evS (evs : List Ev) : String :=
+  let e := evs.filterMap fun
+    | .ws i => some s!"ws:{i}" | .we i => some s!"we:{i}" | .dn i st => some s!"dn:{i}:{st}"
+    | .ret v => some s!"ret:{v}" | .lk _ => none
+  let l := evs.filterMap fun | .lk s => some s | _ => none
+  s!"ev={lst e} lk={lst l}"
+
+def parseKind : String → Option Kind
+  | "c" => some .cpu | "f" => some .fast | "s" => some .slow | _ => none
+
+def parseAct : List String → Option Act
+  | ["sub", l, k, c] => (parseKind k).map fun k => .sub (nat! l) k (nat! c)
+  | ["can", l, i] => some (.can (nat! l) (nat! i))
+  | ["go", l] => some (.go (nat! l))
+  | ["drn", l] => some (.drn (nat! l))
+  | ["wk", t, c] => some (.wk (nat! t) (nat! c))
+  | ["wake", t] => some (.wake (nat! t))
+  | _ => none
+
+def actS : Act → String
+  | .sub l k c => s!"sub {l} {kindS k} {c}" | .can l i => s!"can {l} {i}" | .go l => s!"go {l}"
+  | .drn l => s!"drn {l}" | .wk t c => s!"wk {t} {c}" | .wake t => s!"wake {t}"
+
+def tpoolStep (s : State) : List String → State × List String
+  | ["cfg", n, l] => let s := State.init (nat! n) (nat! l); (s, [s!"ev=- lk=- | {dump s}"])
+  | "fin" :: _ => (s, [])
+  | [] => (s, [])
+  | ws =>
+    match parseAct ws with
+    | none => (s, ["bad-op"])
+    | some a =>
+      match step s a with
+      | none => (s, ["skip"])
+      | some (s', evs) => (s', [s!"{evS evs} | {dump s'}"])
+
+/-! ### enabled actions (signal choice 0; callers vary it) -/
+
+def enabledCat (s : State) (maxItems : Nat) (kinds : List Kind) (cat : String) : List Act :=
+  let ls := List.range s.nLoops
+  let ok (a : Act) : Bool := (step s a).isSome
+  let subs := if s.nItems < maxItems then
+      (ls.flatMap fun l => kinds.map fun k => Act.sub l k 0).filter ok else []
+  let cans := (ls.flatMap fun l => (List.range s.nItems).map fun i => Act.can l i).filter ok
+  let loopA := (ls.flatMap fun l =>
+      [Act.go l] ++ (if (s.loops l).async then [Act.drn l] else [])).filter ok
+  let wks := ((List.range s.n).map fun t => Act.wk t 0).filter ok
+  let wakes := ((List.range s.n).map fun t => Act.wake t).filter ok
+  match cat with
+  | "sub" => subs | "can" => cans | "loop" => loopA | "wk" => wks | "wake" => wakes
+  | "nospur" => subs ++ cans ++ loopA ++ wks
+  | _ => subs ++ cans ++ loopA ++ wks ++ wakes
+
+def withC : Act → Nat → Act
+  | .sub l k _, c => .sub l k c
+  | .wk t _, c => .wk t c
+  | a, _ => a
+
+structure GenSt where
+  s : State := State.init 1 1
+  maxItems : Nat := 0
+
+def genStep (g : GenSt) : List String → GenSt × List String
+  | ["cfg", n, l, m] => ({ s := State.init (nat! n) (nat! l), maxItems := nat! m }, [s!"cfg {n} {l}"])
+  | ["r", cat, num, c] =>
+    let all := [Kind.cpu, .fast, .slow]
+    let xs := enabledCat g.s g.maxItems all cat
+    let xs := if xs.isEmpty then enabledCat g.s g.maxItems all "any" else xs
+    match xs[nat! num % xs.length]? with
+    | none => (g, [])
+    | some a =>
+      let a := withC a (nat! c)
+      match step g.s a with
+      | some (s', _) => ({ g with s := s' }, [actS a])
+      | none => (g, [])
+  | [] => (g, [])
+  | _ => (g, ["bad-op"])
+
+/-! ### exhaustive graph -/
+
+def key (s : State) (cancels : Nat) : String :=
+  dump s ++ " lq=" ++ " ".intercalate ((List.range s.nLoops).map fun l =>
+    lst ((s.loops l).lq.map toString) ++ (match (s.loops l).cmid with
+      | some (i, ok) => s!"/{i}{b01 ok}" | none => "")) ++ s!" c{cancels}"
+
+partial def bfs (maxItems maxCancels : Nat) (kinds : List Kind) (spur : Bool)
+    (out : IO.FS.Stream) (ids : Std.HashMap String Nat) (todo : List (State × Nat × Nat))
+    (next : List (State × Nat × Nat)) : IO Nat := do
+  match todo with
+  | [] => if next.isEmpty then return ids.size else bfs maxItems maxCancels kinds spur out ids next.reverse []
+  | (s, cn, sid) :: rest =>
+    let acts := enabledCat s maxItems kinds (if spur then "any" else "nospur")
+    let nw := max 1 (waiters s).length
+    let mut ids := ids
+    let mut next := next
+    for a0 in acts do
+      let isCan := match a0 with | .can _ _ => true | _ => false
+      if isCan && cn ≥ maxCancels then continue
+      let cs := match a0 with | .sub _ _ _ => List.range nw | .wk _ _ => List.range nw | _ => [0]
+      let mut seen : List Nat := []
+      for c in cs do
+        let a := withC a0 c
+        match step s a with
+        | none => pure ()
+        | some (s', _) =>
+          let cn' := if isCan then cn + 1 else cn
+          let k := key s' cn'
+          let (did, ids') := match ids[k]? with
+            | some d => (d, ids)
+            | none => (ids.size, ids.insert k ids.size)
+          if ids'.size > ids.size then next := (s', cn', did) :: next
+          ids := ids'
+          if !seen.contains did then
+            seen := did :: seen
+            out.putStrLn s!"e {sid} {did} {actS a}"
+    bfs maxItems maxCancels kinds spur out ids rest next
+
+def graphMain : IO Unit := do
+  let stdin ← IO.getStdin
+  let out ← IO.getStdout
+  let line ← stdin.getLine
+  match words line with
+  | ["cfg", n, l, m, mc, ks, spur] =>
+    let kinds := ks.toList.filterMap fun ch => parseKind ch.toString
+    let s := State.init (nat! n) (nat! l)
+    let ids : Std.HashMap String Nat := Std.HashMap.emptyWithCapacity 1024 |>.insert (key s 0) 0
+    let cnt ← bfs (nat! m) (nat! mc) kinds (spur == "1") out ids [(s, 0, 0)] []
+    out.putStrLn s!"states {cnt}"
+    out.flush
+  | _ => out.putStrLn "bad-op"; out.flush
 
 /-- (mode name, action).  `uvdriver <mode>` runs the action (normally `runLines init step`). -/
-def modes : List (String × IO Unit) := []
+def modes : List (String × IO Unit) :=
+  [("tpool", runLines (State.init 1 1) tpoolStep),
+   ("tpoolgen", runLines ({} : GenSt) genStep),
+   ("tpoolgraph", graphMain)]
 
 end Drivers.C08
